@@ -25,6 +25,10 @@ World: a hand-registered database rebuilt per configuration (worlds.mini("bare")
 import itertools
 import math
 
+# the histories of this check run on hand-registered databases rebuilt per history: the warm regime of the
+# thorough tier (worlds.warm_up on the shipped table) would only repeat the same exploration
+WARM_REGIME = False
+
 import numpy as np
 
 from barril.units import Array, FixedArray, FractionScalar, Scalar
